@@ -696,4 +696,108 @@ theorem namedIn_iff (id bm : List Nat) (hu : cstr id ≠ []) :
   have : (cstr id).isEmpty = false := by cases h : cstr id <;> simp_all
   simp [this]
 
+/-! ### accounts -/
+
+theorem headD_zero_iff (s : List Nat) : s.headD 0 = 0 ↔ cstr s = [] := by
+  cases s with
+  | nil => simp [cstr]
+  | cons a as =>
+    by_cases h : a = 0
+    · subst h; simp [cstr]
+    · simp [cstr, List.takeWhile, h]
+
+theorem caseEq_iff (a b : List Nat) : caseEq a b = true ↔ (cstr a).map foldCase = (cstr b).map foldCase := by
+  simp [caseEq]
+
+theorem caseEq_nil (a b : List Nat) (h : caseEq a b = true) : cstr a = [] ↔ cstr b = [] := by
+  rw [caseEq_iff] at h
+  constructor
+  · intro ha; rw [ha] at h; simpa using h.symm
+  · intro hb; rw [hb] at h; simpa using h
+
+theorem caseEq_congr (a b x : List Nat) (h : caseEq a b = true) : caseEq a x = caseEq b x := by
+  rw [caseEq_iff] at h
+  unfold caseEq; rw [h]
+
+/-- the lookup does not see letter case -/
+theorem searchUser_caseEq (tbl : UserTable) (a b : List Nat) (h : caseEq a b = true) : searchUser tbl a = searchUser tbl b := by
+  unfold searchUser
+  have h0 : (a.headD 0 = 0) ↔ (b.headD 0 = 0) := by rw [headD_zero_iff, headD_zero_iff]; exact caseEq_nil a b h
+  have hf : (fun e : Int × List Nat => caseEq a e.2) = (fun e => caseEq b e.2) := by
+    funext e; exact caseEq_congr a b e.2 h
+  by_cases ha : a.headD 0 = 0
+  · rw [if_pos ha, if_pos (h0.1 ha)]
+  · have hb : ¬ b.headD 0 = 0 := fun hb => ha (h0.2 hb)
+    rw [if_neg ha, if_neg hb, hf]
+
+/-- special-casing that looks at the loaded record only does not depend on what the caller typed -/
+theorem applySpecials_loaded (s1 s2 recId : List Nat) (sp : List (String × List Nat × String)) (lv : W)
+    (h : ∀ e ∈ sp, e.1 = "loaded") : applySpecials s1 recId sp lv = applySpecials s2 recId sp lv := by
+  induction sp generalizing lv with
+  | nil => rfl
+  | cons e rest ih =>
+    obtain ⟨subject, bytes, action⟩ := e
+    have hs : subject = "loaded" := h (subject, bytes, action) (by simp)
+    subst hs
+    have ih' := fun lv => ih lv (fun e he => h e (by simp [he]))
+    simp only [applySpecials, ↓reduceIte]
+    split <;> (try split) <;> (try split) <;> first | rfl | exact ih' _
+
+/-! ### the moderator cache -/
+
+theorem parseLoop_length (tbl : UserTable) (ns : List (List Nat)) (acc : List Int) (h : acc.length ≤ MAX_BMs) :
+    (parseLoop tbl ns acc).length ≤ MAX_BMs := by
+  induction ns generalizing acc with
+  | nil => simpa [parseLoop] using h
+  | cons n ns ih =>
+    unfold parseLoop
+    by_cases hfull : acc.length ≥ MAX_BMs
+    · simp [hfull]; exact h
+    · simp only [hfull, ↓reduceIte]
+      split
+      · apply ih; simp; omega
+      · exact ih acc h
+
+/-- every uid the loop collects is a valid uid found under one of the names (or was there before) -/
+theorem parseLoop_mem (tbl : UserTable) (ns : List (List Nat)) (acc : List Int) (u : Int) (h : u ∈ parseLoop tbl ns acc) :
+    u ∈ acc ∨ (uidValid u = true ∧ ∃ n ∈ ns, searchUser tbl (n.take 13) = u) := by
+  induction ns generalizing acc with
+  | nil => left; simpa [parseLoop] using h
+  | cons n ns ih =>
+    unfold parseLoop at h
+    by_cases hfull : acc.length ≥ MAX_BMs
+    · left; simpa [hfull] using h
+    · simp only [hfull, ↓reduceIte] at h
+      by_cases hv : uidValid (searchUser tbl (n.take 13)) = true
+      · simp only [hv, ↓reduceIte] at h
+        rcases ih _ h with h1 | ⟨h1, m, hm, hm2⟩
+        · rcases List.mem_append.1 h1 with h2 | h2
+          · exact Or.inl h2
+          · right; simp at h2; subst h2; exact ⟨hv, n, by simp, rfl⟩
+        · right; exact ⟨h1, m, by simp [hm], hm2⟩
+      · simp only [hv] at h
+        rcases ih _ h with h1 | ⟨h1, m, hm, hm2⟩
+        · exact Or.inl h1
+        · right; exact ⟨h1, m, by simp [hm], hm2⟩
+
+theorem bmCacheOf_build (tbl : UserTable) (st : BMCacheSt) (b bid : Int) (bm : List Nat) :
+    bmCacheOf (buildBMCache tbl st b bm) bid = if b = bid then parseBMList tbl bm else bmCacheOf st bid := by
+  unfold bmCacheOf buildBMCache
+  by_cases h : b = bid
+  · subst h; simp
+  · have hne : (b == bid) = false := by simpa using h
+    simp only [List.find?_cons, hne, h, ↓reduceIte]
+    have : List.find? (fun e => e.1 == bid) (List.filter (fun e => e.1 != b) st) = List.find? (fun e => e.1 == bid) st := by
+      induction st with
+      | nil => rfl
+      | cons e es ih =>
+        by_cases he : e.1 = b
+        · have hb : (e.1 != b) = false := by simp [he]
+          have hb2 : (e.1 == bid) = false := by rw [he]; exact hne
+          simp [List.filter, hb, List.find?_cons, hb2, ih]
+        · have hb : (e.1 != b) = true := by simp [he]
+          simp only [List.filter, hb, List.find?_cons]
+          split <;> simp_all
+    rw [this]
+
 end PttVerif.C07
